@@ -126,6 +126,7 @@ def is_tup(t):
 
 
 LISTS = (SECLIST, STRLIST, EMPTYLIST)
+CONCRETE_LISTS = [SECLIST, STRLIST]        # the list types with a known element type (a sibling translator adds its own)
 ELEM = {SECLIST: SECTION, STRLIST: STR}
 LIST_OF = {SECTION: SECLIST, STR: STRLIST}
 
@@ -315,8 +316,8 @@ class FunctionTranslator:
             return "PList %s" % _paren(text)
         if want == STR and ty == CHAR:
             return "[%s]" % text
-        if ty == EMPTYLIST and want in (SECLIST, STRLIST):
-            return "(@nil %s)" % coq_type(ELEM[want])
+        if ty == EMPTYLIST and want in CONCRETE_LISTS:
+            return "(@nil %s)" % _paren(coq_type(ELEM[want]))
         if want == SECLIST and ty == PV:
             # a section where a list of sections is needed: treated as an exception (see DetectRt.pv_list)
             return self.hoist(node, H, "call (pv_list %s)" % _paren(text), "l")
@@ -534,7 +535,7 @@ class FunctionTranslator:
             self.fail(e, "index of type %s" % tname(ti))
         if tv == STR:
             return self.hoist(e, H, "sub_s %s %s" % (_paren(v), _paren(i)), "c"), CHAR
-        if tv in (SECLIST, STRLIST):
+        if tv in CONCRETE_LISTS:
             return self.hoist(e, H, "sub_l %s %s" % (_paren(v), _paren(i)), "x"), ELEM[tv]
         self.fail(e, "subscript of a value of type %s" % tname(tv))
 
@@ -546,7 +547,7 @@ class FunctionTranslator:
             v, tv = self.expr(e.args[0], env, H)
             if tv == STR:
                 return "len %s" % _paren(v), Z
-            if tv in (SECLIST, STRLIST):
+            if tv in CONCRETE_LISTS:
                 return "llen %s" % _paren(v), Z
             self.fail(e, "len of a value of type %s" % tname(tv))
         if isinstance(f, ast.Attribute):
@@ -698,7 +699,7 @@ class FunctionTranslator:
         if old == MWD:
             self.fail(node, "the multi-word detector is rebound")
         if old is not None and old != ty:
-            if old == EMPTYLIST and ty in (SECLIST, STRLIST):
+            if old == EMPTYLIST and ty in CONCRETE_LISTS:
                 pass
             else:
                 self.fail(node, "%r changes its type from %s to %s" % (name, tname(old), tname(ty)))
@@ -869,7 +870,7 @@ class FunctionTranslator:
                 text, ty = self.expr(v, env, H)
                 if ty == EMPTYLIST:
                     ty = self.listtypes.get(t.id, EMPTYLIST)
-                    text = "@nil %s" % coq_type(ELEM[ty]) if ty != EMPTYLIST else "[]"
+                    text = "@nil %s" % _paren(coq_type(ELEM[ty])) if ty != EMPTYLIST else "[]"
                 self.bind_var(s, t.id, ty, env, owned=True)
             else:
                 text, ty = self.expr(v, env, H)
@@ -883,7 +884,7 @@ class FunctionTranslator:
         if isinstance(t, ast.Subscript) and isinstance(t.value, ast.Name):
             x = t.value.id
             tx = env.types.get(x)
-            if tx not in (SECLIST, STRLIST) or x not in env.owned:
+            if tx not in CONCRETE_LISTS or x not in env.owned:
                 self.fail(s, "item / slice assignment is supported on a list the function owns only")
             if isinstance(t.slice, ast.Slice):
                 sl = t.slice
@@ -929,7 +930,7 @@ class FunctionTranslator:
         if not (isinstance(t, ast.Subscript) and isinstance(t.value, ast.Name) and not isinstance(t.slice, ast.Slice)):
             self.fail(s, "only `del x[i]` is supported")
         x = t.value.id
-        if env.types.get(x) not in (SECLIST, STRLIST) or x not in env.owned:
+        if env.types.get(x) not in CONCRETE_LISTS or x not in env.owned:
             self.fail(s, "del is supported on a list the function owns only")
         H = []
         i, ti = self.expr(t.slice, env, H)
@@ -965,7 +966,7 @@ class FunctionTranslator:
                 out = self.line(ind, "let %s := append %s %s in" % (x, x, _paren(e)), s)
             else:
                 base = te[1] if is_opt(te) else te
-                if base not in (SECLIST, STRLIST):
+                if base not in CONCRETE_LISTS:
                     self.fail(s, "extend by a value of type %s" % tname(te))
                 if tx == EMPTYLIST:
                     tx = self.refine_list(s, x, ELEM[base], env)
@@ -1100,7 +1101,7 @@ class FunctionTranslator:
             head = "for_each"
         if tl == STR:
             binders.append((x, CHAR))
-        elif tl in (SECLIST, STRLIST):
+        elif tl in CONCRETE_LISTS:
             binders.append((x, ELEM[tl]))
         else:
             self.fail(s, "loop over a value of type %s" % tname(tl))
@@ -1109,7 +1110,7 @@ class FunctionTranslator:
             if isinstance(m, ast.Name) and m.id in names and env.types[m.id] in LISTS:
                 # the body stores into the list it iterates over: accepted for `x[i] = e` only (the length cannot
                 # change); Python's list iterator then reads x[pos] from the current list
-                if m is not lst or tl not in (SECLIST, STRLIST) or lst.id not in env.owned:
+                if m is not lst or tl not in CONCRETE_LISTS or lst.id not in env.owned:
                     self.fail(s, "the iterated list is mutated in the loop")
                 self.only_item_stores(s, lst.id)
                 live = lst.id
@@ -1167,7 +1168,7 @@ class FunctionTranslator:
     def after_loop(self, s, names, env, inner):
         for n in names:
             ti = inner.types.get(n)
-            if env.types[n] == EMPTYLIST and ti in (SECLIST, STRLIST):
+            if env.types[n] == EMPTYLIST and ti in CONCRETE_LISTS:
                 env.types[n] = ti
             elif ti != env.types[n]:
                 self.fail(s, "%r changes its type in the loop" % n)
